@@ -580,7 +580,47 @@ func checkR3(c rcase) *vk.Failure {
 		}); f != nil {
 			return f
 		}
-		return matSame(key, m, want)
+		if f := matSame(key, m, want); f != nil {
+			return f
+		}
+		// The result is a value of its own: writing to it leaves the
+		// operands alone and writing to an operand leaves it alone
+		// (unless the receiver is that operand).
+		readAny := func(x mat.Matrix) [9]float64 {
+			var o [9]float64
+			for i := 0; i < 3; i++ {
+				for j := 0; j < 3; j++ {
+					o[3*i+j] = x.At(i, j)
+				}
+			}
+			return o
+		}
+		i, j := abs(c.I)%3, abs(c.J)%3
+		marker := math.Float64frombits(0x7ff8_0000_0000_c08a)
+		for n, op := range []mat.Matrix{a, b} {
+			orig := [][9]float64{A, B}[n]
+			if om, ok := op.(*r3.Mat); ok && om == m {
+				continue
+			}
+			keep := m.At(i, j)
+			m.Set(i, j, marker)
+			if got := readAny(op); !sameBits9(got, orig) {
+				return vk.Failf(key+"/result-shares-storage-with-operand", "writing element (%d,%d) of the result changed operand %d: %v, was %v", i, j, n, got, orig)
+			}
+			m.Set(i, j, keep)
+			if om, ok := op.(*r3.Mat); ok {
+				k := abs(c.K) % 9
+				before := readMat(m)
+				raw := om.RawMatrix()
+				old := raw.Data[k]
+				raw.Data[k] = marker
+				if got := readMat(m); !sameBits9(got, before) {
+					return vk.Failf(key+"/result-shares-storage-with-operand", "writing to operand %d after the call changed the result: %v, was %v", n, got, before)
+				}
+				raw.Data[k] = old
+			}
+		}
+		return nil
 
 	case "r3.Mat.Mul":
 		a, b := matOperand(A, c.KindA), matOperand(B, c.KindB)
@@ -805,4 +845,13 @@ func drawR3(t *rapid.T) rcase {
 
 func TestR3(t *testing.T) {
 	vk.Run(t, "spatial", vk.Opts{Quick: 30000, Thorough: 400000, NoCrumb: true}, drawR3, checkR3)
+}
+
+func sameBits9(a, b [9]float64) bool {
+	for i := range a {
+		if math.Float64bits(a[i]) != math.Float64bits(b[i]) {
+			return false
+		}
+	}
+	return true
 }
